@@ -543,7 +543,10 @@ class SAMIWriter(BaseWriter):
                     attr, value, caption_set.layout_info)
 
         for lang in caption_set.get_languages():
-            lang_string = f'lang: {lang}'
+            # the rule as it is written by _recreate_style_block, including
+            # the semicolon, so that 'es' is not taken for declared because
+            # 'est' is
+            lang_string = f'lang: {lang};'
             if lang_string not in stylesheet:
                 stylesheet += self._recreate_style_block(
                     lang, {'lang': lang}, caption_set.get_layout_info(lang))
